@@ -26,3 +26,25 @@ func Point(owner any, name string, args ...any) {
 		(*h)(owner, name, args...)
 	}
 }
+
+type SkipHandler func(owner any, name string, args ...any) bool
+
+var skipHandler atomic.Pointer[SkipHandler]
+
+// SetSkipHandler installs (or, with nil, removes) the handler asked at every Skip.
+func SetSkipHandler(h SkipHandler) {
+	if h == nil {
+		skipHandler.Store(nil)
+		return
+	}
+	skipHandler.Store(&h)
+}
+
+// Skip lets the harness pass over an eligible candidate where the service takes the first one a map
+// iteration yields (the iteration order is not specified, so every order is a legal behaviour).
+func Skip(owner any, name string, args ...any) bool {
+	if h := skipHandler.Load(); h != nil {
+		return (*h)(owner, name, args...)
+	}
+	return false
+}
